@@ -19,7 +19,7 @@ META = dict(
                        '(*DSC).Maintainers/HasArchAll/AbsFiles/DebianSource', '(*Changes).AbsFiles', '(*SourceParagraph).Maintainers', '(*BinaryIndex).SourcePackage/Get*',
                        '(*SourceIndex).Get*', '(*BestChecksums).Checksums', 'getOptionalDependencyField', 'dependency.Parse', 'version.Parse', 'ParseArch', 'path.Join', 'filepath.Dir'],
     stubs=['reflect (model; struct tags come from go/types, so a changed or missing tag changes the encoding)', 'strings.Fields/Split/Trim/Contains (models)', 'fmt.Sprintf/Errorf'],
-    bounds={'quick': 'one document per kind and layout variant (.dsc single-line and folded lists with 1-3 binaries, 0-2 uploaders with blanks inside the names, 1-2 file entries; .changes; debian/control with 1-2 binary paragraphs; Packages; Sources; best-checksum selector with sha256 only / sha512 only / both), every struct field present at least once, leaves of 1-2 symbolic characters',
+    bounds={'quick': 'one document per kind and layout variant (.dsc single-line and folded lists with 1-3 binaries, 0-2 uploaders with blanks inside the names, 1-2 file entries; .changes; debian/control with 1-2 binary paragraphs; Packages; Sources; best-checksum selector with sha256 only / sha512 only / both), every struct field present at least once, leaves of 1-2 symbolic characters; Size / Installed-Size as small literals, as 2^31, 2^32 and 2^63-1, and as symbolic digits; a file size of 2^32',
             'thorough': 'leaves of up to 3 symbolic characters'},
     outside_claim=['field combinations not in the template set', 'long values', 'documents holding fields named like the fields of nested types (Epoch, Revision, Relations, ...)'],
     assumptions=['architecture names denote the triples ParseArch documents; dependency fields denote the structure checked in C04'])
@@ -298,11 +298,14 @@ def control(variant, L):
 def packages(variant, L):
     d = Doc(L)
     exp = []
+    # sizes: small literals, the 32-bit and 64-bit boundaries (a .deb of 2 GiB and more is legal), or symbolic digits
+    isz, sz = {'a': (B(b'1420'), B(b'5032')), 'b': (B(b'1420'), B(b'5032')), 'c': (B(b'2147483648'), B(b'9223372036854775807')),
+               'd': (d.leaf(b'123456789', DIGITS), B(b'4294967296'))}[variant]
     for i in range(2 if variant == 'a' else 1):
         if i:
             d.blank()
         pkg = d.leaf()
-        srcfield = [(pkg + B(b'-defaults (1.0)')) if variant == 'b' else (d.leaf() + B(b' (1.0)')), None][i]
+        srcfield = [(pkg + B(b'-defaults (1.0)')) if variant in ('b', 'd') else (d.leaf() + B(b' (1.0)')), None][i]
         up, rev = d.leaf(DIGITS, LOWD + b'.'), d.leaf(LOWD, LOWD)
         maint = d.leaf(TXT, TXT) + B(b' <m@x>')
         arch = [b'amd64', b'all'][i]
@@ -317,7 +320,7 @@ def packages(variant, L):
         if srcfield is not None:
             d.field(b'Source', srcfield)
         d.field(b'Version', up + B(b'-') + rev)
-        d.field(b'Installed-Size', b'1420')
+        d.field(b'Installed-Size', isz)
         d.field(b'Maintainer', maint)
         d.field(b'Architecture', arch)
         d.field(b'Multi-Arch', b'foreign')
@@ -332,7 +335,7 @@ def packages(variant, L):
         d.field(b'Section', sect)
         d.field(b'Priority', prio)
         d.field(b'Filename', fn)
-        d.field(b'Size', b'5032')
+        d.field(b'Size', sz)
         d.field(b'MD5sum', m5)
         d.field(b'SHA1', s1)
         d.field(b'SHA256', s256)
@@ -342,7 +345,7 @@ def packages(variant, L):
         add(exp, b'Package', pkg)
         add(exp, b'Source', srcfield if srcfield is not None else b'')
         add(exp, b'Version', dver(up, rev))
-        add(exp, b'InstalledSize', b'1420')
+        add(exp, b'InstalledSize', isz)
         add(exp, b'Maintainer', maint)
         add(exp, b'Architecture', darch(arch))
         add(exp, b'MultiArch', b'foreign')
@@ -353,7 +356,7 @@ def packages(variant, L):
         add(exp, b'Section', sect)
         add(exp, b'Priority', prio)
         add(exp, b'Filename', fn)
-        add(exp, b'Size', b'5032')
+        add(exp, b'Size', sz)
         add(exp, b'MD5sum', m5)
         add(exp, b'SHA1', s1)
         add(exp, b'SHA256', s256)
@@ -374,7 +377,7 @@ def sources(variant, L):
     maint = d.leaf(TXT, TXT) + B(b' <m@x>')
     upl = d.leaf(TXT, TXT) + B(b' A <a@x>, B <b@x>')
     archs = [b'any', b'all']
-    files = [(d.leaf(HEX, HEX, n=2), b'1999', d.leaf() + B(b'.dsc'))]
+    files = [(d.leaf(HEX, HEX, n=2), b'1999' if variant == 'a' else b'4294967296', d.leaf() + B(b'.dsc'))]
     vb, vg, home, direc, prio, sect = d.leaf(TXT, TXT), d.leaf(TXT, TXT), d.leaf(TXT, TXT), B(b'pool/main/') + d.leaf(), d.leaf(), d.leaf()
     bd_t, bd_d = d.dep([[VERS], [SIMPLE]])
     bdi_t, bdi_d = d.dep([[SIMPLE]])
@@ -439,7 +442,7 @@ def best(variant, L):
     return 'VerifC10Best', [Str(d.text()), Str(exp)], d.sym.assume
 
 
-KINDS = [('dsc', dsc, ('single', 'folded', 'one')), ('changes', changes, ('a', 'b')), ('control', control, ('a', 'b')), ('packages', packages, ('a', 'b')),
+KINDS = [('dsc', dsc, ('single', 'folded', 'one')), ('changes', changes, ('a', 'b')), ('control', control, ('a', 'b')), ('packages', packages, ('a', 'b', 'c', 'd')),
          ('sources', sources, ('a', 'b')), ('best', best, ('256', '512', 'both'))]
 
 
